@@ -12,7 +12,7 @@ pub enum K { F, N, S }
 pub struct Call { kind: K, key: usize, input: u32 }
 
 #[derive(Copy, Clone, Debug)]
-pub enum Op { D(Call), Q(Call), W(u32) }
+pub enum Op { D(Call), Q(Call), W(u32), X(usize) }
 
 #[derive(Clone, Debug)]
 pub struct Def { kind: K, key: usize, excl: bool, runs: Vec<Vec<Op>> }
@@ -30,6 +30,7 @@ fn try_call(world: &mut World, c: Call)
 {
     let capped = SH.with(|s| { let mut s = s.borrow_mut(); if s.ncalls >= CAP_MAX { true } else { s.ncalls += 1; false } });
     if capped { log(format!("sc capped {}{}", kname(c.kind), c.key)); return }
+    log(format!("sc call {}{}", kname(c.kind), c.key));
     let r = do_call(world, c);
     report(c, r);
 }
@@ -43,7 +44,7 @@ fn kname(k: K) -> &'static str { match k { K::F => "f", K::N => "n", K::S => "s"
 fn parse_call(t: &[&str]) -> Option<Call> { match t { [k, key, x] => Some(Call{ kind: kind(k)?, key: num(key)?, input: num(x)? }), _ => None } }
 fn parse_op(t: &[&str]) -> Option<Op>
 {
-    match t { ["q", r @ ..] => Some(Op::Q(parse_call(r)?)), ["d", r @ ..] => Some(Op::D(parse_call(r)?)), ["w", v] => Some(Op::W(num(v)?)), _ => None }
+    match t { ["q", r @ ..] => Some(Op::Q(parse_call(r)?)), ["d", r @ ..] => Some(Op::D(parse_call(r)?)), ["w", v] => Some(Op::W(num(v)?)), ["x", v] => Some(Op::X(num(v)?)), _ => None }
 }
 
 pub fn parse(text: &str) -> Option<(Vec<Def>, Vec<Top>)>
@@ -142,10 +143,18 @@ fn body_ordinary(kind: K, key: usize, def_key: usize, x: u32, local: &mut u32, c
             Op::D(_) => log("unsupported direct call in ordinary system".into()),
             Op::Q(call) => c.queue(move |w: &mut World| try_call(w, call)),
             Op::W(v) => c.queue(move |_: &mut World| log(format!("sc write {v}"))),
+            Op::X(id) => c.queue(move |w: &mut World| despawn_spawned(w, id)),
         }
     }
     *local += 1;
     x * 100 + run
+}
+
+/// Queued despawn of the spawned system with instance number `id` (a no-op on the world if it does not exist).
+fn despawn_spawned(world: &mut World, id: usize)
+{
+    if let Some((sid, _)) = SH.with(|s| s.borrow().spawned.get(id).copied()) { world.despawn(sid.entity()); }
+    log(format!("sc despawned s{}", id));
 }
 
 fn body_exclusive(kind: K, key: usize, def_key: usize, x: u32, local: &mut u32, world: &mut World) -> u32
@@ -160,6 +169,7 @@ fn body_exclusive(kind: K, key: usize, def_key: usize, x: u32, local: &mut u32, 
             Op::D(call) => try_call(world, call),
             Op::Q(call) => world.commands().queue(move |w: &mut World| try_call(w, call)),
             Op::W(v) => world.commands().queue(move |_: &mut World| log(format!("sc write {v}"))),
+            Op::X(id) => world.commands().queue(move |w: &mut World| despawn_spawned(w, id)),
         }
     }
     *local += 1;
